@@ -229,6 +229,8 @@ class Recorder:
                     raise rec.raised
                 if kind == "raise_key":
                     raise KeyError("injected")
+                if kind == "raise_index":    # an exception class the caller might be tempted to "handle" (wrong input shape?)
+                    raise IndexError("injected: index 3 is out of bounds")
                 if kind == "raise_stop":     # an exception class with a meaning for Python's iteration protocol (a data iterator ran dry)
                     raise StopIteration("injected")
                 he = rec.spec.get("noise") == "specified"
